@@ -439,6 +439,37 @@ where
       · obtain ⟨m, hm⟩ := ih _ _ h
         exact ⟨b :: m, by rw [hm]; simp⟩
 
+theorem applyLoop_error_is_delta (e : Err) (src : Bytes) (D : Nat) : ∀ (f : Nat) (d out : Bytes), d.length ≤ f →
+    applyLoop src D f d out = .error e → e = .delta := by
+  intro f
+  induction f with
+  | zero =>
+    intro d out hf h
+    cases d with
+    | nil => simp only [applyLoop, finish] at h; split at h <;> cases h; rfl
+    | cons c r => simp at hf
+  | succ f ih =>
+    intro d out hf h
+    cases d with
+    | nil => simp only [applyLoop, finish] at h; split at h <;> cases h; rfl
+    | cons cmd rest =>
+      simp only [applyLoop] at h
+      split at h
+      · split at h
+        · cases h; rfl
+        · rename_i off sz r2 hdc
+          have hl := decodeCopy_length hdc
+          split at h
+          · split at h
+            · simp only [finish] at h; split at h <;> cases h; rfl
+            · cases h; rfl
+          · exact ih r2 _ (by simp at hf; omega) h
+      · split at h
+        · split at h
+          · cases h; rfl
+          · exact ih _ _ (by simp at hf ⊢; omega) h
+        · cases h; rfl
+
 /-- The only failure of the Python decoder is the delta error (never `other`: the fuel never runs out). -/
 theorem apply_error_is_delta (base delta : Bytes) (e : Err) (h : applyDelta base delta = .error e) :
     e = .delta := by
@@ -450,51 +481,291 @@ theorem apply_error_is_delta (base delta : Bytes) (e : Err) (h : applyDelta base
     · split at h
       · cases h; rfl
       · rename_i destSize d2 _ _
-        exact loop_err base destSize d2.length d2 [] (Nat.le_refl _) h
-where
-  loop_err (src : Bytes) (D : Nat) : ∀ (f : Nat) (d out : Bytes), d.length ≤ f →
-      applyLoop src D f d out = .error e → e = .delta := by
-    intro f
-    induction f with
-    | zero =>
-      intro d out hf h
-      cases d with
-      | nil => simp only [applyLoop, finish] at h; split at h <;> cases h; rfl
-      | cons c r => simp at hf
-    | succ f ih =>
-      intro d out hf h
-      cases d with
-      | nil => simp only [applyLoop, finish] at h; split at h <;> cases h; rfl
-      | cons cmd rest =>
-        simp only [applyLoop] at h
+        exact applyLoop_error_is_delta e base destSize d2.length d2 [] (Nat.le_refl _) h
+
+/-! ## 6. The Rust decoder agrees with the Python decoder on every input (also carries C15) -/
+
+theorem rsDecodeSize_eq_py : ∀ (d : Bytes) (s a : Nat) {n : Nat} {r : Bytes},
+    rsDecodeSizeAux s a d = some (n, r) → decodeSizeAux s a d = some (n, r) := by
+  intro d
+  induction d with
+  | nil => intro s a n r h; simp [rsDecodeSizeAux] at h
+  | cons b d ih =>
+    intro s a n r h
+    simp only [rsDecodeSizeAux] at h
+    split at h
+    · cases h
+    · simp only [decodeSizeAux]
+      split at h
+      · rename_i hlt; simp only [hlt, if_true]; exact h
+      · rename_i hlt; simp only [hlt, if_false]; exact ih _ _ h
+
+/-- When the Rust header decoder rejects a header the Python decoder accepts, the value is ≥ 2^64. -/
+theorem rsDecodeSize_none_py_big : ∀ (d : Bytes) (s a : Nat) {n : Nat} {r : Bytes},
+    rsDecodeSizeAux s a d = none → decodeSizeAux s a d = some (n, r) → 2 ^ 64 ≤ n := by
+  intro d
+  induction d with
+  | nil => intro s a n r _ h; simp [decodeSizeAux] at h
+  | cons b d ih =>
+    intro s a n r hr hp
+    have hU : Gen.rsUsizeBits = 64 := rfl
+    simp only [rsDecodeSizeAux, usizeMod, hU] at hr
+    simp only [decodeSizeAux] at hp
+    have mono : ∀ (d : Bytes) (s a : Nat) {n : Nat} {r : Bytes}, decodeSizeAux s a d = some (n, r) → a ≤ n := by
+      intro d
+      induction d with
+      | nil => intro s a n r h; simp [decodeSizeAux] at h
+      | cons b d ih2 =>
+        intro s a n r h
+        simp only [decodeSizeAux] at h
         split at h
-        · split at h
-          · cases h; rfl
-          · rename_i off sz r2 hdc
-            have hl := decodeCopy_length hdc
-            split at h
-            · split at h
-              · simp only [finish] at h; split at h <;> cases h; rfl
-              · cases h; rfl
-            · exact ih r2 _ (by simp at hf; omega) h
+        · simp only [Option.some.injEq, Prod.mk.injEq] at h; omega
+        · have := ih2 _ _ h; omega
+    split at hr
+    · rename_i hbig
+      obtain ⟨hne, hsh⟩ := hbig
+      have hge : 2 ^ 64 ≤ b.toNat % 128 * 2 ^ s := by
+        rcases hsh with h64 | h
+        · have h1 : 2 ^ 64 ≤ 2 ^ s := Nat.pow_le_pow_right (by decide) h64
+          have h2 : 1 ≤ b.toNat % 128 := by omega
+          calc 2 ^ 64 ≤ 2 ^ s := h1
+            _ = 1 * 2 ^ s := by rw [Nat.one_mul]
+            _ ≤ b.toNat % 128 * 2 ^ s := Nat.mul_le_mul_right _ h2
+        · exact h
+      split at hp
+      · simp only [Option.some.injEq, Prod.mk.injEq] at hp; omega
+      · have := mono _ _ _ hp; omega
+    · split at hr
+      · cases hr
+      · rename_i hlt
+        simp only [hlt, if_false] at hp
+        exact ih _ _ hr hp
+
+theorem applyLoop_ok_prefix (src : Bytes) (D : Nat) : ∀ (f : Nat) (d out res : Bytes),
+    applyLoop src D f d out = .ok res → out.length ≤ res.length := by
+  intro f
+  induction f with
+  | zero =>
+    intro d out res h
+    cases d with
+    | nil => simp only [applyLoop, finish] at h; split at h <;> cases h; exact Nat.le_refl _
+    | cons c r => simp [applyLoop] at h
+  | succ f ih =>
+    intro d out res h
+    cases d with
+    | nil => simp only [applyLoop, finish] at h; split at h <;> cases h; exact Nat.le_refl _
+    | cons cmd rest =>
+      simp only [applyLoop] at h
+      split at h
+      · split at h
+        · cases h
         · split at h
           · split at h
-            · cases h; rfl
-            · exact ih _ _ (by simp at hf ⊢; omega) h
-          · cases h; rfl
+            · simp only [finish] at h; split at h <;> cases h; exact Nat.le_refl _
+            · cases h
+          · have := ih _ _ _ h; simp only [List.length_append] at this; omega
+      · split at h
+        · split at h
+          · cases h
+          · have := ih _ _ _ h; simp only [List.length_append] at this; omega
+        · cases h
 
-/-! ## 6. The Rust decoder (as coded): same guarantees only away from wide varints / huge sizes -/
+theorem applyLoop_ok_length (src : Bytes) (D : Nat) : ∀ (f : Nat) (d out res : Bytes),
+    applyLoop src D f d out = .ok res → res.length = D := by
+  intro f
+  induction f with
+  | zero =>
+    intro d out res h
+    cases d with
+    | nil => simp only [applyLoop, finish] at h; split at h <;> cases h; assumption
+    | cons c r => simp [applyLoop] at h
+  | succ f ih =>
+    intro d out res h
+    cases d with
+    | nil => simp only [applyLoop, finish] at h; split at h <;> cases h; assumption
+    | cons cmd rest =>
+      simp only [applyLoop] at h
+      split at h
+      · split at h
+        · cases h
+        · split at h
+          · split at h
+            · simp only [finish] at h; split at h <;> cases h; assumption
+            · cases h
+          · exact ih _ _ _ h
+      · split at h
+        · split at h
+          · cases h
+          · exact ih _ _ _ h
+        · cases h
 
-/-- Negation witness (F2a): an 11-byte size varint makes the debug-profile Rust decoder panic
-(`attempt to shift left with overflow`) — it does not "fail with the delta error". -/
-theorem rs_panics_counterexample :
-    applyDeltaRs true [] [0x80, 0x80, 0x80, 0x80, 0x80, 0x80, 0x80, 0x80, 0x80, 0x80, 0x00, 0x00] = .panic := by
+/-- Rust's `Option` result and Python's `Except` result on a common footing. -/
+def ofRs : Option Bytes → Except Err Bytes
+  | some r => .ok r
+  | none => .error .delta
+
+def normPy : Except Err Bytes → Except Err Bytes
+  | .ok r => .ok r
+  | .error _ => .error .delta
+
+theorem rsLoop_eq_pyLoop (src : Bytes) (D : Nat) : ∀ (f : Nat) (d out : Bytes),
+    ofRs (rsApplyLoop src D f d out) = normPy (applyLoop src D f d out) := by
+  intro f
+  induction f with
+  | zero =>
+    intro d out
+    cases d with
+    | nil => simp only [rsApplyLoop, applyLoop, finish]; split <;> simp [ofRs, normPy]
+    | cons c r => simp [rsApplyLoop, applyLoop, ofRs, normPy]
+  | succ f ih =>
+    intro d out
+    cases d with
+    | nil => simp only [rsApplyLoop, applyLoop, finish]; split <;> simp [ofRs, normPy]
+    | cons cmd rest =>
+      have a4 : Gen.rsApplyOffsetBytes = Gen.applyOffsetBytes := rfl
+      have a3 : Gen.rsApplySizeBytes = Gen.applySizeBytes := rfl
+      have az : Gen.rsCopyZeroSize = Gen.copyZeroSize := rfl
+      simp only [rsApplyLoop, applyLoop, decodeCopy, a4, a3, az]
+      by_cases hc : cmd.toNat ≥ 128
+      · -- copy
+        simp only [hc, if_true]
+        cases h1 : readLE (bitsOf Gen.applyOffsetBytes cmd.toNat) rest with
+        | none => simp [ofRs, normPy]
+        | some p1 =>
+          obtain ⟨off, r1⟩ := p1
+          simp only
+          cases h2 : readLE (bitsOf Gen.applySizeBytes (cmd.toNat / 16)) r1 with
+          | none => simp [ofRs, normPy]
+          | some p2 =>
+            obtain ⟨sz0, r2⟩ := p2
+            simp only
+            generalize (if sz0 = 0 then Gen.copyZeroSize else sz0) = sz
+            by_cases hbrk : off + sz > src.length ∨ sz > D
+            · have hrs : sz > src.length ∨ off > src.length ∨ off > src.length - sz ∨ sz > D := by omega
+              simp only [hrs, hbrk, if_true, finish]
+              by_cases he : r2.isEmpty = true
+              · simp only [he, if_true]; split <;> simp [ofRs, normPy]
+              · simp [he, ofRs, normPy]
+            · have hrs : ¬ (sz > src.length ∨ off > src.length ∨ off > src.length - sz ∨ sz > D) := by omega
+              simp only [hrs, hbrk, if_false]
+              by_cases hov : out.length > D - sz
+              · simp only [hov, if_true]
+                -- the Python loop goes on but can no longer succeed
+                cases hpy : applyLoop src D f r2 (out ++ List.take sz (List.drop off src)) with
+                | error e => simp [ofRs, normPy]
+                | ok res =>
+                  exfalso
+                  have hpre := applyLoop_ok_prefix src D f _ _ _ hpy
+                  have hsz := applyLoop_ok_length src D f _ _ _ hpy
+                  simp only [List.length_append, List.length_take, List.length_drop] at hpre
+                  omega
+              · simp only [hov, if_false]
+                exact ih _ _
+      · simp only [hc, if_false]
+        by_cases hn0 : cmd.toNat ≠ 0
+        · rw [if_pos hn0, if_pos hn0]
+          by_cases hlen : cmd.toNat > rest.length
+          · simp only [hlen, if_true]
+            split
+            · simp [ofRs, normPy]
+            · split <;> simp [ofRs, normPy]
+          · simp only [hlen, if_false]
+            by_cases hov : cmd.toNat > D ∨ out.length + cmd.toNat > D
+            · have : (if cmd.toNat > D then (none : Option Bytes) else if out.length + cmd.toNat > D then none
+                  else rsApplyLoop src D f (List.drop cmd.toNat rest) (out ++ List.take cmd.toNat rest)) = none := by
+                split
+                · rfl
+                · split
+                  · rfl
+                  · omega
+              simp only [this]
+              cases hpy : applyLoop src D f (List.drop cmd.toNat rest) (out ++ List.take cmd.toNat rest) with
+              | error e => simp [ofRs, normPy]
+              | ok res =>
+                exfalso
+                have hpre := applyLoop_ok_prefix src D f _ _ _ hpy
+                have hsz := applyLoop_ok_length src D f _ _ _ hpy
+                simp only [List.length_append, List.length_take] at hpre
+                omega
+            · have h1 : ¬ cmd.toNat > D := by omega
+              have h2 : ¬ out.length + cmd.toNat > D := by omega
+              simp only [h1, h2, if_false]
+              exact ih _ _
+        · simp [hn0, ofRs, normPy]
+
+/-- **Rust ≡ Python for delta application** (the C15 clause for `apply_delta`).
+For every base a 64-bit machine can hold and every byte string offered as a delta whose declared
+result size is below 2^64 (a larger result cannot exist either), the Rust decoder as coded returns
+exactly what the Python decoder returns: the same bytes, or the delta error in both. -/
+theorem rs_equiv_py (src delta : Bytes) (hs : src.length < 2 ^ 64)
+    (hd : ∀ n, declaredDest delta = some n → n < 2 ^ 64) :
+    applyDeltaRs src delta = applyDelta src delta := by
+  have hnorm : ∀ x : Except Err Bytes, (∀ e, x = .error e → e = .delta) → normPy x = x := by
+    intro x hx
+    cases x with
+    | ok r => rfl
+    | error e => rw [hx e rfl]; rfl
+  unfold applyDeltaRs applyDelta
+  unfold declaredDest decodeSize at hd
+  cases hr1 : rsDecodeSizeAux 0 0 delta with
+  | none =>
+    simp only
+    cases hp1 : decodeSizeAux 0 0 delta with
+    | none => simp [decodeSize, hp1]
+    | some p =>
+      obtain ⟨n1, d1⟩ := p
+      have hbig := rsDecodeSize_none_py_big delta 0 0 hr1 hp1
+      simp only [decodeSize, hp1]
+      cases hp2 : decodeSizeAux 0 0 d1 with
+      | none => rfl
+      | some p2 =>
+        obtain ⟨n2, d2⟩ := p2
+        have : n1 ≠ src.length := by omega
+        simp [this]
+  | some p =>
+    obtain ⟨n1, d1⟩ := p
+    have hp1 := rsDecodeSize_eq_py delta 0 0 hr1
+    simp only [decodeSize, hp1]
+    simp only [hp1] at hd
+    by_cases hne : n1 ≠ src.length
+    · simp only [if_pos hne]
+      cases decodeSizeAux 0 0 d1 with
+      | none => rfl
+      | some p2 => rfl
+    · simp only [hne, if_false]
+      cases hr2 : rsDecodeSizeAux 0 0 d1 with
+      | none =>
+        simp only
+        cases hp2 : decodeSizeAux 0 0 d1 with
+        | none => rfl
+        | some p2 =>
+          obtain ⟨n2, d2⟩ := p2
+          exfalso
+          have hbig := rsDecodeSize_none_py_big d1 0 0 hr2 hp2
+          have := hd n2 (by simp [hp2])
+          omega
+      | some p2 =>
+        obtain ⟨n2, d2⟩ := p2
+        have hp2 := rsDecodeSize_eq_py d1 0 0 hr2
+        simp only [hp2]
+        have h := rsLoop_eq_pyLoop src n2 d2.length d2 []
+        rw [hnorm _ (fun e he => applyLoop_error_is_delta e src n2 d2.length d2 [] (Nat.le_refl _) he)] at h
+        rw [← h]
+        cases rsApplyLoop src n2 d2.length d2 [] <;> rfl
+
+/-- Non-vacuity: both decoders on a delta with a copy and an insert. -/
+example : applyDeltaRs [1, 2, 3] [3, 4, 0x91, 1, 2, 2, 7, 8] = .ok [2, 3, 7, 8] ∧
+    applyDelta [1, 2, 3] [3, 4, 0x91, 1, 2, 2, 7, 8] = .ok [2, 3, 7, 8] := by decide
+
+/-- Regression witnesses for the two repaired Rust defects (see KNOWN_FINDINGS.jsonl, `fixed`):
+an 11-byte size varint and a declared size of 2^45 are plain delta errors now. -/
+theorem rs_wide_varint_is_error :
+    applyDeltaRs [] [0x80, 0x80, 0x80, 0x80, 0x80, 0x80, 0x80, 0x80, 0x80, 0x80, 0x01, 0x00] = .error .delta := by
   decide
 
-/-- Negation witness (F2b): an 8-byte delta makes the Rust decoder ask the allocator for 2^45 bytes
-before it has looked at a single opcode. -/
-theorem rs_alloc_counterexample :
-    applyDeltaRs true [] [0x00, 0x80, 0x80, 0x80, 0x80, 0x80, 0x80, 0x08] = .err (2 ^ 45) := by
+theorem rs_last_op_overflow_is_error :
+    applyDeltaRs [] [0x00, 0x00, 0x05] = .error .delta ∧
+    applyDeltaRs [0x78] [1, 5, 5, 97, 98, 99, 100, 101, 0x90, 1] = .error .delta := by
   decide
 
 end Dulwich.Props.C03
